@@ -29,7 +29,11 @@ def _run_spec_chunk(case_lines):
     res = []
     i = 0
     while i < len(case_lines):
-        p = subprocess.Popen([vlib.MODEL_EXE, "spec"], stdin=subprocess.PIPE, stdout=subprocess.PIPE, stderr=subprocess.DEVNULL, text=True)
+        def _limit():
+            # a driver orphaned by a killed check must not spin for ever: hard cap on its CPU time
+            import resource
+            resource.setrlimit(resource.RLIMIT_CPU, (1800, 1800))
+        p = subprocess.Popen([vlib.MODEL_EXE, "spec"], stdin=subprocess.PIPE, stdout=subprocess.PIPE, stderr=subprocess.DEVNULL, text=True, preexec_fn=_limit)
         q = queue.Queue()
 
         def reader(proc=p, qq=q):
